@@ -376,7 +376,12 @@ class Shelxfile():
             while multiline:
                 # Glue together the two lines wrapped with "=":
                 wrapindex += 1
-                line = line.rpartition('=')[0] + self._reslist[line_num + wrapindex]
+                if line_num + wrapindex >= len(self._reslist):
+                    # The last line of the file ends with "=", there is nothing to append:
+                    line = line.split('!')[0].partition('=')[0]
+                    break
+                # Characters after "!" and after "=" do not belong to the instruction:
+                line = line.split('!')[0].partition('=')[0] + self._reslist[line_num + wrapindex]
                 # self.delete_on_write.update([line_num + wrapindex])
                 list_of_lines.append(line_num + wrapindex)  # list containing the lines of a multiline command
                 # Do not activate this, otherwise, the unwrapping stops after two lines.
